@@ -6,7 +6,7 @@
    Streams::compactify (the Section variables [exec_stream_instr] / [finish_streams] of RunExec.run),
    over the success of the two signing calls and over the data serializer. *)
 From Aqua Require Import Base Json Air Trace Handler Values Scalars Lens Exec RunExec RunTop CodesSpec CodesProofs.
-From Aqua Require Stream.
+From Aqua Require Stream ExecStreams StreamPosSpec StreamPosProofs.
 Open Scope N_scope.
 Open Scope list_scope.
 
@@ -66,6 +66,41 @@ Proof. exact internal_error_branch. Qed.
 Theorem C02_compactify_sufficient : C02_compactify_sufficient_stmt.
 Proof. exact compactify_sufficient. Qed.
 
+(* ---- the global half of `compactify_total`: the stream-position invariant of the executor model ----
+   (model/StreamPosSpec.v, proofs/StreamPosProofs.v).  For the stage-2 executor (ExecStreams.stream_instr,
+   ExecStreams.finish_streams, i.e. run2) the hypothesis [compactify_ok] is a theorem. *)
+
+(* every value of every live stream / stream map points at its own Ap / stream Call state of the result trace,
+   at pairwise different positions, table keys are unique, no stream holds STREAM_MAX_SIZE values: true in the
+   initial context and preserved by every instruction, for every fuel, instruction and context (induction on the
+   fuel over all instructions; every outcome that carries a context, uncatchable errors included) *)
+Theorem C02_stream_pos_inv : StreamPosSpec.stream_pos_inv_stmt.
+Proof. exact StreamPosProofs.stream_pos_inv. Qed.
+
+(* [gen_at tr p]: p < length tr and the state there is `SAp _` or `SCall (Executed (VRStream _ _))` *)
+Theorem C02_gen_at_spec : StreamPosSpec.gen_at_spec_stmt.
+Proof. exact StreamPosProofs.gen_at_spec. Qed.
+
+(* on a context that satisfies the invariant Streams::compactify + StreamMaps::compactify run to the end: no
+   GenerationCompactificationError and no generation index overflow (indices stay below 3 * STREAM_MAX_SIZE) *)
+Theorem C02_finish_total : StreamPosSpec.finish_total_stmt.
+Proof. exact StreamPosProofs.finish_total. Qed.
+
+(* hence for every run input: a run that ends with success or a catchable error compactifies successfully *)
+Theorem C02_compactify_total : StreamPosSpec.compactify_total_stmt.
+Proof. exact StreamPosProofs.compactify_total. Qed.
+
+Theorem C02_compactify_ok_run2 : StreamPosSpec.compactify_ok_run2_stmt.
+Proof. exact StreamPosProofs.compactify_ok_run2. Qed.
+
+(* the property's first sentence and the code classes for run2 (the stage-2 executor and its compactification),
+   WITHOUT the hypothesis compactify_ok *)
+Theorem C02_fail_keeps_prev_run2 : StreamPosSpec.C02_fail_keeps_prev_run2_stmt.
+Proof. exact StreamPosProofs.fail_keeps_prev_run2. Qed.
+
+Theorem C02_code_classes_run2 : StreamPosSpec.C02_code_classes_run2_stmt.
+Proof. exact StreamPosProofs.code_classes_run2. Qed.
+
 (* the decisive source lines are the ones the model mirrors (re-read from /repo on every run) *)
 Theorem C02_source_tie : C02_source_tie_stmt.
 Proof. exact source_tie. Qed.
@@ -116,6 +151,37 @@ Example C02_compactify_nonvacuous :
               = Stream.CompactErr e).
 Proof. split; eexists; [split|]; vm_compute; reflexivity. Qed.
 
+(* run2 on a script with two streams, a `new`-scoped stream and a stream fold: the reached context holds three
+   live values (the one of the `new`-scoped stream has left the tables), compactifies, and the full routing
+   answers new data *)
+Definition C02_ap (text val name : string) (pos : N) : instr :=
+  IAp text (ALiteral val) (ApStream {| v_name := name; v_pos := pos |}).
+Definition C02_stream_script : instr :=
+  ISeq (C02_ap "ap1" "x" "$s" 10)
+       (ISeq (INew "new" (NStream {| v_name := "$t"; v_pos := 20 |}) (C02_ap "ap2" "y" "$t" 25) {| sp_left := 15; sp_right := 40 |})
+             (ISeq (C02_ap "ap3" "z" "$s" 50)
+                   (IFoldStream "fold" {| v_name := "$s"; v_pos := 60 |} {| v_name := "i"; v_pos := 61 |}
+                                (C02_ap "ap4" "w" "$u" 70) None {| sp_left := 55; sp_right := 90 |}))).
+Example C02_run2_nonvacuous :
+  match exec ExecStreams.stream_instr 100 C02_stream_script (initial_ctx (ib_input C02_stream_script [])) with
+  | XOk x =>
+      map va_pos (StreamPosSpec.ctx_values x) = [0; 2; 4] /\
+      match ExecStreams.finish_streams x with
+      | inl y => result_trace cid (x_handler y) =
+                 [SAp [0]; SAp [0]; SAp [0];
+                  SFold [{| fl_value_pos := 0; fl_descs := [{| sd_pos := 4; sd_len := 1 |}; {| sd_pos := 5; sd_len := 0 |}] |}];
+                  SAp [0]]
+      | inr _ => False
+      end
+  | _ => False
+  end /\
+  C02_is (execute_air_full ExecStreams.stream_instr ExecStreams.finish_streams (fun _ => true) (fun _ => true) C02_ser
+                           100%nat unlimited (ib_world C02_stream_script []) [9; 9]) 0%Z [1; 0; 5; 0] 0.
+Proof.
+  split; [vm_compute; split; reflexivity|].
+  eexists; split; [vm_compute; reflexivity|repeat split].
+Qed.
+
 Print Assumptions C02_codes.
 Print Assumptions C02_codes_general.
 Print Assumptions C02_fail_stages.
@@ -127,3 +193,10 @@ Print Assumptions C02.
 Print Assumptions C02_internal_error_branch.
 Print Assumptions C02_compactify_sufficient.
 Print Assumptions C02_source_tie.
+Print Assumptions C02_stream_pos_inv.
+Print Assumptions C02_gen_at_spec.
+Print Assumptions C02_finish_total.
+Print Assumptions C02_compactify_total.
+Print Assumptions C02_compactify_ok_run2.
+Print Assumptions C02_fail_keeps_prev_run2.
+Print Assumptions C02_code_classes_run2.
